@@ -15,6 +15,15 @@
 (*   200+n  keyword n at construction      500+n  f.n = ..  (setattr)      *)
 (*   300+i  i-th positional argument of the call   600+n  f.rebind(n=..)   *)
 (*   400+n  keyword n of the call          900+p  the default of p         *)
+(* The error kind of a binding never depends on the values, so every step  *)
+(* that supplies arguments has a VALUE MODE: "distinct" (as above),        *)
+(* "equal" (a keyword carries the value the positional route would carry:  *)
+(* f(1, p1=1)), at construction "boxed" (every value v is the symbolic     *)
+(* container pg.Dict(x=v), written Box(v) = 100000+v), at call time        *)
+(* "asbound" (the value already bound to that parameter is passed again).  *)
+(* A rebind is an ORDERED list of 1..MaxRebind entries with distinct       *)
+(* targets: <<"top", n>> binds n to 600+n, <<"box", n>> to Box(650+n),     *)
+(* <<"in", n>> writes 800+n at the nested path n.x of a boxed argument.    *)
 (*                                                                         *)
 (* BindV is Python's binding algorithm (validated against the interpreter  *)
 (* on every exported signature x call).  The life cycle                    *)
@@ -37,6 +46,9 @@ CONSTANTS MaxPos,     \* positional-or-keyword parameters: 0..MaxPos
           MaxArgs,    \* positional arguments in a call: 0..MaxArgs
           MaxKw,      \* at most this many keywords per call
           MaxSteps,   \* bound on the number of life-cycle steps (state constraint)
+          MaxRebind,  \* entries in one rebind: 1..MaxRebind
+          CtorModeSet, CallModeSet,   \* value modes explored (subsets of CtorModes / CallModes)
+          FlagAtSet,  \* where the two flags may be given: subset of {"init", "call"}
           AsCoded,    \* see above
           SimK        \* 0: exhaustive argument sets; k > 0: k random members (simulation configs only)
 
@@ -90,10 +102,27 @@ BindV(s, pos, kw) ==
            va |-> extra,
            kwx |-> [n \in kwUnknown |-> kw[n]]]
 
-\* a call shape with values drawn from the bases (100/200 at construction, 300/400 at call time)
+\* symbolic container values: Box(v) is pg.Dict(x=v)
+BOX == 100000
+Box(v) == BOX + v
+IsBox(v) == v >= BOX
+UnBox(v) == v - BOX
+
+\* a call shape with values drawn from the bases (100/200 at construction, 300/400 at call time); equal bases =
+\* value mode "equal"
 PosVals(c, base) == [k \in 1..c.nargs |-> base + k]
 KwVals(c, base) == [n \in c.kw |-> base + n]
 BindShape(s, c, pbase, kbase) == BindV(s, PosVals(c, pbase), KwVals(c, kbase))
+
+CtorModes == {"distinct", "equal", "boxed"}
+CallModes == {"distinct", "equal", "asbound"}
+CV(vm, v) == IF vm = "boxed" THEN Box(v) ELSE v
+CtorPos(c, vm) == [k \in 1..c.nargs |-> CV(vm, 100 + k)]
+CtorKw(c, vm) == [n \in c.kw |-> CV(vm, (IF vm = "equal" THEN 100 ELSE 200) + n)]
+CallPosVal(b, cm, p) == IF cm = "asbound" /\ p \in DOMAIN b THEN b[p] ELSE 300 + p
+CallKwVal(b, cm, n) == IF cm = "asbound" /\ n \in DOMAIN b THEN b[n] ELSE (IF cm = "distinct" THEN 400 ELSE 300) + n
+CallPosSeq(s, b, cm, c) == [k \in 1..c.nargs |-> IF k <= s.npos THEN CallPosVal(b, cm, k) ELSE 300 + k]
+CallKwMap(b, cm, c) == [n \in c.kw |-> CallKwVal(b, cm, n)]
 
 -----------------------------------------------------------------------------
 (* Construction: partial binding allowed, so "missing" is not an error here *)
@@ -102,9 +131,12 @@ ConstructOutcome(s, c) ==
   ELSE IF c.kw \cap {p \in PosParams(s) : p <= c.nargs} # {} THEN "multiple"
   ELSE IF (c.kw \ Named(s)) # {} /\ ~s.vk THEN "unexpected"
   ELSE "ok"
-ConstructBound(s, c) ==
-  [n \in {p \in PosParams(s) : p <= c.nargs} \cup c.kw |-> IF n \in PosParams(s) /\ n <= c.nargs THEN 100 + n ELSE 200 + n]
-ConstructVargs(s, c) == IF c.nargs > s.npos THEN [k \in 1..(c.nargs - s.npos) |-> 100 + s.npos + k] ELSE <<>>
+\* pos / kw: the valued arguments (sequence, function)
+BoundOf(s, pos, kw) ==
+  [n \in {p \in PosParams(s) : p <= Len(pos)} \cup DOMAIN kw |-> IF n \in PosParams(s) /\ n <= Len(pos) THEN pos[n] ELSE kw[n]]
+VargsOf(s, pos) == IF Len(pos) > s.npos THEN SubSeq(pos, s.npos + 1, Len(pos)) ELSE <<>>
+ConstructBound(s, c, vm) == BoundOf(s, CtorPos(c, vm), CtorKw(c, vm))
+ConstructVargs(s, c, vm) == VargsOf(s, CtorPos(c, vm))
 
 (* The call: merge rule of the Functor documentation *)
 CallPos(s, c) == {p \in PosParams(s) : p <= c.nargs}
@@ -114,12 +146,12 @@ CallError(s, b, c, ov, ig) ==
   ELSE IF ~AsCoded /\ CallPos(s, c) \cap c.kw # {} THEN "multiple"                    \* twice in the same call
   ELSE IF (c.kw \ Named(s)) # {} /\ ~s.vk /\ ~ig THEN "unexpected"
   ELSE "ok"
-MergedNamed(s, b, c, ig) ==
-  LET fromPos == [p \in CallPos(s, c) |-> 300 + p]
+MergedNamed(s, b, c, ig, cm) ==
+  LET fromPos == [p \in CallPos(s, c) |-> CallPosVal(b, cm, p)]
       kws == IF s.vk THEN c.kw ELSE c.kw \cap Named(s)                                 \* ignored extras are dropped
-      fromKw == [n \in kws |-> 400 + n]
+      fromKw == [n \in kws |-> CallKwVal(b, cm, n)]
   IN Override(Override(b, fromPos), fromKw)
-MergedVargs(s, v, c) == IF c.nargs > s.npos /\ s.va THEN [k \in 1..(c.nargs - s.npos) |-> 300 + s.npos + k] ELSE v
+MergedVargs(s, v, c) == IF c.nargs > s.npos /\ s.va THEN VargsOf(s, CallPosSeq(s, EmptyMap, "distinct", c)) ELSE v
 
 \* the direct call that has the same effective arguments
 EffectiveCall(s, named, va) ==
@@ -128,16 +160,16 @@ EffectiveCall(s, named, va) ==
        IN [pos |-> [p \in PosParams(s) |-> IF p \in DOMAIN named THEN named[p] ELSE Default(p)] \o va,
            kw |-> Restrict(named, (DOMAIN named) \ PosParams(s)),
            short |-> have # PosParams(s)]      \* a required positional parameter has no value at all
-CallOutcome(s, b, v, c, ov, ig) ==
+CallOutcome(s, b, v, c, ov, ig, cm) ==
   LET e == CallError(s, b, c, ov, ig) IN
   IF e # "ok" THEN Err(e)
-  ELSE LET ec == EffectiveCall(s, MergedNamed(s, b, c, ig), MergedVargs(s, v, c))
+  ELSE LET ec == EffectiveCall(s, MergedNamed(s, b, c, ig, cm), MergedVargs(s, v, c))
        IN IF ec.short THEN Err("missing") ELSE BindV(s, ec.pos, ec.kw)
 
 \* the same outcome computed without going through a direct call: used to check that the effective call is well defined
-MergedOutcome(s, b, v, c, ov, ig) ==
+MergedOutcome(s, b, v, c, ov, ig, cm) ==
   LET e == CallError(s, b, c, ov, ig)
-      named == MergedNamed(s, b, c, ig)
+      named == MergedNamed(s, b, c, ig, cm)
   IN IF e # "ok" THEN Err(e)
      ELSE IF Required(s) \ (DOMAIN named) # {} THEN Err("missing")
      ELSE [err |-> "ok", vals |-> [p \in Named(s) |-> IF p \in DOMAIN named THEN named[p] ELSE Default(p)],
@@ -146,6 +178,18 @@ MergedOutcome(s, b, v, c, ov, ig) ==
 \* what the functor reports as its arguments (sym_init_args): specified value, else the default, else MISSING (0)
 Reported(s, b) == [p \in Named(s) |-> IF p \in DOMAIN b THEN b[p] ELSE IF HasDefault(s, p) THEN Default(p) ELSE 0]
 
+(* Rebind: an ordered list of entries <<kind, name>> with distinct targets *)
+EntryOK(s, b, e) == /\ e[2] \in Named(s)
+                    /\ (e[1] = "in") => (e[2] \in DOMAIN b /\ IsBox(b[e[2]]))
+EntryVal(e) == IF e[1] = "top" THEN 600 + e[2] ELSE IF e[1] = "box" THEN Box(650 + e[2]) ELSE Box(800 + e[2])
+ApplyEntry(b, e) == Override(b, [m \in {e[2]} |-> EntryVal(e)])
+RECURSIVE ApplySeq(_, _)
+ApplySeq(b, es) == IF es = <<>> THEN b ELSE ApplySeq(ApplyEntry(b, Head(es)), Tail(es))   \* in the order given
+\* the same, order-free: every target gets the value of its (only) entry
+ApplySet(b, es) == Override(b, [m \in {es[k][2] : k \in 1..Len(es)} |->
+                                  EntryVal(es[CHOOSE k \in 1..Len(es) : es[k][2] = m])])
+DistinctTargets(es) == \A k1, k2 \in 1..Len(es) : k1 # k2 => es[k1][2] # es[k2][2]
+
 -----------------------------------------------------------------------------
 P(S) == IF SimK = 0 \/ S = {} THEN S ELSE RandomSubset(IF SimK < Cardinality(S) THEN SimK ELSE Cardinality(S), S)
 NoRes == Err("none")
@@ -153,23 +197,23 @@ NoRes == Err("none")
 Init == /\ sig \in WFSigs /\ phase = "new" /\ bound = EmptyMap /\ vargs = <<>> /\ ovr = FALSE /\ ign = FALSE
         /\ flagAt = "call" /\ res = NoRes /\ act = <<"Init">> /\ steps = 0 /\ rep = EmptyMap
 
-Construct(c, o, g, fa) ==
+Construct(c, o, g, fa, vm) ==
   /\ phase = "new"
   /\ (fa = "call") => (~o /\ ~g)
   /\ LET e == ConstructOutcome(sig, c) IN
        /\ res' = Err(e)
        /\ IF e = "ok"
-          THEN /\ phase' = "built" /\ bound' = ConstructBound(sig, c) /\ vargs' = ConstructVargs(sig, c)
+          THEN /\ phase' = "built" /\ bound' = ConstructBound(sig, c, vm) /\ vargs' = ConstructVargs(sig, c, vm)
                /\ ovr' = o /\ ign' = g /\ flagAt' = fa
           ELSE UNCHANGED <<phase, bound, vargs, ovr, ign, flagAt>>
   /\ rep' = IF phase' = "built" THEN Reported(sig, bound') ELSE EmptyMap
-  /\ act' = <<"Construct", c.nargs, c.kw, o, g, fa>>
+  /\ act' = <<"Construct", CtorPos(c, vm), CtorKw(c, vm), o, g, fa, vm>>    \* the valued arguments themselves
   /\ steps' = steps + 1 /\ UNCHANGED sig
 
 SetAttr(n) ==
   /\ phase = "built" /\ n \in Named(sig)
   /\ bound' = Override(bound, [m \in {n} |-> 500 + n])
-  /\ act' = <<"SetAttr", n>> /\ res' = NoRes /\ steps' = steps + 1 /\ rep' = Reported(sig, bound')
+  /\ act' = <<"SetAttr", n, 500 + n>> /\ res' = NoRes /\ steps' = steps + 1 /\ rep' = Reported(sig, bound')
   /\ UNCHANGED <<sig, phase, vargs, ovr, ign, flagAt>>
 
 DelAttr(n) ==
@@ -178,10 +222,10 @@ DelAttr(n) ==
   /\ act' = <<"DelAttr", n>> /\ res' = NoRes /\ steps' = steps + 1 /\ rep' = Reported(sig, bound')
   /\ UNCHANGED <<sig, phase, vargs, ovr, ign, flagAt>>
 
-Rebind(S) ==
-  /\ phase = "built" /\ S # {} /\ S \subseteq Named(sig)
-  /\ bound' = Override(bound, [m \in S |-> 600 + m])
-  /\ act' = <<"Rebind", S>> /\ res' = NoRes /\ steps' = steps + 1 /\ rep' = Reported(sig, bound')
+Rebind(es) ==
+  /\ phase = "built" /\ es # <<>> /\ DistinctTargets(es) /\ \A k \in 1..Len(es) : EntryOK(sig, bound, es[k])
+  /\ bound' = ApplySeq(bound, es)
+  /\ act' = <<"Rebind", [k \in 1..Len(es) |-> <<es[k][1], es[k][2], EntryVal(es[k])>>]>> /\ res' = NoRes /\ steps' = steps + 1 /\ rep' = Reported(sig, bound')
   /\ UNCHANGED <<sig, phase, vargs, ovr, ign, flagAt>>
 
 \* replacing the functor by its clone keeps everything, flags included
@@ -192,13 +236,13 @@ JsonRT == /\ phase = "built" /\ act' = <<"JsonRT">> /\ res' = NoRes /\ steps' = 
           /\ flagAt' = "call" /\ ovr' = FALSE /\ ign' = FALSE
           /\ UNCHANGED <<sig, phase, bound, vargs, rep>>
 
-Call(c, ov, ig) ==
+Call(c, ov, ig, cm) ==
   /\ phase = "built"
   /\ (flagAt = "init") => (ov = ovr /\ ig = ign)
   \* don't-care (documentation silent): call-time *args while *args were prebound
   /\ ~(c.nargs > sig.npos /\ sig.va /\ vargs # <<>>)
-  /\ res' = CallOutcome(sig, bound, vargs, c, ov, ig)
-  /\ act' = <<"Call", c.nargs, c.kw, ov, ig>>
+  /\ res' = CallOutcome(sig, bound, vargs, c, ov, ig, cm)
+  /\ act' = <<"Call", CallPosSeq(sig, bound, cm, c), CallKwMap(bound, cm, c), ov, ig, cm>>
   /\ steps' = steps + 1
   /\ UNCHANGED <<sig, phase, bound, vargs, ovr, ign, flagAt, rep>>
 
@@ -210,14 +254,21 @@ Drop == /\ phase = "built" /\ phase' = "new" /\ bound' = EmptyMap /\ vargs' = <<
 CtorCalls == IF SimK = 0 THEN Calls
              ELSE P({c \in Calls : ConstructOutcome(sig, c) = "ok"}) \cup RandomSubset(1, Calls)
 CallCalls == IF SimK = 0 THEN Calls
-             ELSE P({c \in Calls : \E ov \in BOOLEAN : CallOutcome(sig, bound, vargs, c, ov, FALSE).err = "ok"})
+             ELSE P({c \in Calls : \E ov \in BOOLEAN : CallOutcome(sig, bound, vargs, c, ov, FALSE, "distinct").err = "ok"})
                   \cup RandomSubset(2, Calls)
+Entries == {e \in {"top", "box", "in"} \X Named(sig) : EntryOK(sig, bound, e)}
+\* (simulation: two random entries per position, so that rebinds do not crowd out the other actions)
+PR(S) == IF SimK = 0 \/ S = {} THEN S ELSE RandomSubset(IF Cardinality(S) < 2 THEN 1 ELSE 2, S)
+RebindSeqs == {<<e>> : e \in PR(Entries)}
+              \cup (IF MaxRebind >= 2 THEN {<<e1, e2>> : e1 \in PR(Entries), e2 \in PR(Entries)} ELSE {})
+              \cup (IF MaxRebind >= 3 THEN {<<e1, e2, e3>> : e1 \in PR(Entries), e2 \in PR(Entries), e3 \in PR(Entries)} ELSE {})
 Next == /\ steps < MaxSteps        \* (a guard rather than a state constraint: successors beyond the bound are not even built)
-        /\ \/ \E c \in CtorCalls, o \in BOOLEAN, g \in BOOLEAN, fa \in {"init", "call"} : Construct(c, o, g, fa)
+        /\ \/ \E c \in CtorCalls, o \in BOOLEAN, g \in BOOLEAN, fa \in FlagAtSet, vm \in CtorModeSet :
+                Construct(c, o, g, fa, vm)
            \/ \E n \in Named(sig) : SetAttr(n) \/ DelAttr(n)
-           \/ \E S \in SubsetsUpTo(Named(sig), 2) : Rebind(S)
+           \/ \E es \in RebindSeqs : Rebind(es)
            \/ Clone \/ JsonRT \/ Drop
-           \/ \E c \in CallCalls, ov \in BOOLEAN, ig \in BOOLEAN : Call(c, ov, ig)
+           \/ \E c \in CallCalls, ov \in BOOLEAN, ig \in BOOLEAN, cm \in CallModeSet : Call(c, ov, ig, cm)
 Spec == Init /\ [][Next]_vars
 StepBound == steps <= MaxSteps
 \* exhaustive configs of depth > 2: only the last step is a Call (a call changes nothing, so nothing is lost)
@@ -235,8 +286,8 @@ TypeOK == /\ sig \in WFSigs /\ phase \in {"new", "built"}
 \* the effective direct call is well defined: binding it gives exactly the merged arguments
 EffectiveWellDefined ==
   (act[1] = "Call") =>
-    LET c == [nargs |-> act[2], kw |-> act[3]] IN
-      res = MergedOutcome(sig, bound, vargs, c, act[4], act[5])
+    LET c == [nargs |-> Len(act[2]), kw |-> DOMAIN act[3]] IN
+      res = MergedOutcome(sig, bound, vargs, c, act[4], act[5], act[6])
 
 \* a successful call returns a value for every parameter, each traceable to one place
 ResultComplete ==
@@ -253,20 +304,34 @@ CallIsPure == [][(act'[1] = "Call") => UNCHANGED <<bound, vargs, ovr, ign, flagA
 
 \* binding everything at construction and calling without arguments is the direct call
 FullBindAgrees ==
-  [][(act[1] = "Construct" /\ res.err = "ok" /\ act'[1] = "Call" /\ act'[2] = 0 /\ act'[3] = {}) =>
-       LET d == BindShape(sig, [nargs |-> act[2], kw |-> act[3]], 100, 200)
+  [][(act[1] = "Construct" /\ res.err = "ok" /\ act'[1] = "Call" /\ act'[2] = <<>> /\ DOMAIN act'[3] = {}) =>
+       LET d == BindV(sig, act[2], act[3])
        IN res'.err = d.err /\ (d.err = "ok" => res' = d)]_vars
 
 \* binding nothing at construction and everything in the call is the direct call (ignore_extra_args off)
 LateBindAgrees ==
-  [][(act[1] = "Construct" /\ res.err = "ok" /\ act[2] = 0 /\ act[3] = {} /\ act'[1] = "Call" /\ ~act'[5]) =>
-       res' = BindShape(sig, [nargs |-> act'[2], kw |-> act'[3]], 300, 400)]_vars
+  [][(act[1] = "Construct" /\ res.err = "ok" /\ act[2] = <<>> /\ DOMAIN act[3] = {} /\ act'[1] = "Call" /\ ~act'[5]) =>
+       res' = BindV(sig, act'[2], act'[3])]_vars
 
-\* a construction error is exactly a direct-call error other than "missing"
+\* a construction error is exactly a direct-call error other than "missing", whatever the values
 ConstructAgrees ==
   [][(act'[1] = "Construct") =>
-       LET d == BindShape(sig, [nargs |-> act'[2], kw |-> act'[3]], 100, 200)
+       LET d == BindV(sig, act'[2], act'[3])
        IN (res'.err # "ok") <=> (d.err \in {"toomany", "multiple", "unexpected"})]_vars
+
+\* the outcome kind of a call does not depend on the value mode
+ValuesDoNotMatter ==
+  [][(act'[1] = "Call") =>
+       \A cm \in CallModes :
+         CallOutcome(sig, bound, vargs, [nargs |-> Len(act'[2]), kw |-> DOMAIN act'[3]], act'[4], act'[5], cm).err
+           = res'.err]_vars
+
+\* a rebind gives every target the value of its entry, in whatever order the entries are listed, and marks exactly
+\* the top-level targets as specified
+RebindOrderFree ==
+  [][(act'[1] = "Rebind") =>
+       /\ bound' = ApplySet(bound, act'[2])          \* (entries carry <<kind, name, value>>; ApplySet reads kind, name)
+       /\ DOMAIN bound' = (DOMAIN bound) \cup {act'[2][k][2] : k \in 1..Len(act'[2])}]_vars
 
 view == <<sig, phase, bound, vargs, ovr, ign, flagAt, res, act>>
 =============================================================================
